@@ -17,8 +17,25 @@ package lockedfile
 // no descriptor that existed before the call changed its lock state or was closed
 //@ pure func othersKept(m0 smt:(Array Int Int), m1 smt:(Array Int Int), c0 smt:(Array Int Bool), c1 smt:(Array Int Bool), bound int) bool = forall g int {m1[g]} {c1[g]} :: g <= bound ==> m1[g] == m0[g] && c1[g] == c0[g]
 
+// "regular file" as the code decides it: Stat on the descriptor, Mode, IsRegular (abstract)
+//@ pure func regularFile(pathId int) bool
+//@ pure func infoRegular(fi int) bool
+//@ pure func modeRegular(m int) bool
+//@ extern (*os.File).Stat(f) (fi, err)
+//@   pure
+//@   ensures err == nil ==> infoRegular(fi) == regularFile(fdPath[f])
+//@ extern (io/fs.FileInfo).Mode(fi) (r)
+//@   pure
+//@   ensures modeRegular(r) == infoRegular(fi)
+//@ extern (os.FileInfo).Mode(fi) (r)
+//@   pure
+//@   ensures modeRegular(r) == infoRegular(fi)
+//@ extern (io/fs.FileMode).IsRegular(m) (r)
+//@   pure
+//@   ensures r == modeRegular(m)
 //@ func openFile
 //@   names (f, err)
+//@   ensures err == nil && flag & 512 != 0 && regularFile(sid(name)) ==> fsSize[name] == 0
 //@   ensures flag & 64 == 0 ==> fsExists == old(fsExists)
 //@   ensures flag & 64 == 0 && flag & 512 == 0 ==> fsData == old(fsData) && fsSize == old(fsSize)
 //@   ensures forall p int {fsSize[p]} {fsBytes[p]} :: p != sid(name) ==> fsSize[p] == old(fsSize)[p] && fsBytes[p] == old(fsBytes)[p]
@@ -159,7 +176,7 @@ package lockedfile
 //@   names (unlock, err)
 //@   requires mu != nil && mu.Path != ""
 //@   modifies fsExists, fsData, fsSize, fsBytes, fdPath, fdMode, fdClosed, failBudget, F_S_lockedfile_File_*, gCleanup
-//@   at call lockedfile.OpenFile#1: requires flag & 3 == 2 && flag & 512 == 0
+//@   at call lockedfile.OpenFile#1: requires flag & 3 == 2 && flag & 512 == 0 && sameStr(name, mu.Path)
 //@   ensures fsBytes == old(fsBytes)
 //@ func Lock$1
 //@   requires mu != nil && f != nil && !f.closed
